@@ -353,6 +353,9 @@ func runScenario(sc Scenario) Trace {
 			callMu.Unlock()
 		}
 		tr.Steps = append(tr.Steps, st)
+		if st.Anomaly != "" {
+			break // a Signal/Broadcast that does not return: nothing after it is meaningful
+		}
 	}
 
 	// record results
